@@ -24,11 +24,17 @@ import (
 // not hold, a lookup that finds nothing) and the exhaustion of the loop itself.
 
 func init() {
-	register(&Rule{ID: "VIS-1", Min: 7, Run: runVIS1,
-		Doc: "tree walkers visit every child: in the schema checker (checkNode), the allOf compiler (processNode, CompileAllOf's loop over the types), the used-type collector (collect, collectUserTypesObjectNode) and CheckRootSchema's loop over the types, the visiting call is on every path through the loop body and the loop is on every path from entry to a normal return — the only admissible bypasses are the failure edge of a comma-ok test (type assertion, lookup) and the exhaustion of the loop"})
+	const doc = "the visiting call is on every path through the loop body and the loop is on every path from entry to a normal return — the only admissible bypasses are the failure edge of a comma-ok test (type assertion, lookup) and the exhaustion of the loop"
+	register(&Rule{ID: "VIS-check", Min: 2, Run: func(c *load.Ctx, r *report.RuleResult) { runVIS1(c, r, "check") },
+		Doc: "the schema checker reaches every node and every added type (checkNode over Children(), CheckRootSchema over the type table): " + doc})
+	register(&Rule{ID: "VIS-allof", Min: 2, Run: func(c *load.Ctx, r *report.RuleResult) { runVIS1(c, r, "allof") },
+		Doc: "the allOf compiler reaches every node and every added type (processNode over Children(), CompileAllOf over the type table): " + doc})
+	register(&Rule{ID: "VIS-collect", Min: 3, Run: func(c *load.Ctx, r *report.RuleResult) { runVIS1(c, r, "collect") },
+		Doc: "the used-type collector reaches every property (key shortcuts included) and every array element: " + doc})
 }
 
 type visInstance struct {
+	group       string
 	rel, fn     string // the walker
 	crel, cname string // the visiting callee
 	loopOnly    bool   // only the loop-body obligation (the loop itself is one of several cases)
@@ -36,13 +42,13 @@ type visInstance struct {
 }
 
 var visInstances = []visInstance{
-	{pkgChecker, "checkSchema.checkNode", pkgChecker, "checkSchema.checkNode", false, "every child of a branch node is checked against its rules"},
-	{pkgChecker, "CheckRootSchema", pkgChecker, "checkSchema.checkType", false, "every added type is checked"},
-	{pkgLoader, "allOfConstraintCompiler.processNode", pkgLoader, "allOfConstraintCompiler.processNode", false, "allOf is expanded in every node of the tree"},
-	{pkgLoader, "CompileAllOf", pkgLoader, "allOfConstraintCompiler.processType", false, "allOf is expanded inside every added type"},
-	{"notations/jschema", "userTypesCollector.collectUserTypesObjectNode", "notations/jschema", "userTypesCollector.collect", false, "type references are collected below every property, including key shortcuts"},
-	{"notations/jschema", "userTypesCollector.collect", "notations/jschema", "userTypesCollector.collect", true, "type references are collected below every array element"},
-	{"notations/jschema", "userTypesCollector.collect", "notations/jschema", "userTypesCollector.collectUserTypesObjectNode", true, "the properties of every object node are walked"},
+	{"check", pkgChecker, "checkSchema.checkNode", pkgChecker, "checkSchema.checkNode", false, "every child of a branch node is checked against its rules"},
+	{"check", pkgChecker, "CheckRootSchema", pkgChecker, "checkSchema.checkType", false, "every added type is checked"},
+	{"allof", pkgLoader, "allOfConstraintCompiler.processNode", pkgLoader, "allOfConstraintCompiler.processNode", false, "allOf is expanded in every node of the tree"},
+	{"allof", pkgLoader, "CompileAllOf", pkgLoader, "allOfConstraintCompiler.processType", false, "allOf is expanded inside every added type"},
+	{"collect", "notations/jschema", "userTypesCollector.collectUserTypesObjectNode", "notations/jschema", "userTypesCollector.collect", false, "type references are collected below every property, including key shortcuts"},
+	{"collect", "notations/jschema", "userTypesCollector.collect", "notations/jschema", "userTypesCollector.collect", true, "type references are collected below every array element"},
+	{"collect", "notations/jschema", "userTypesCollector.collect", "notations/jschema", "userTypesCollector.collectUserTypesObjectNode", true, "the properties of every object node are walked"},
 }
 
 // commaOkFailureEdge reports which successor (0 = true edge, 1 = false edge) of the If ending block b
@@ -153,8 +159,11 @@ func innermostLoop(fn *ssa.Function, b *ssa.BasicBlock) (*ssa.BasicBlock, map[*s
 	return bestH, best
 }
 
-func runVIS1(c *load.Ctx, r *report.RuleResult) {
+func runVIS1(c *load.Ctx, r *report.RuleResult, group string) {
 	for _, vi := range visInstances {
+		if vi.group != group {
+			continue
+		}
 		fn := c.Func(vi.rel, vi.fn)
 		callee := c.Func(vi.crel, vi.cname)
 		key := fmt.Sprintf("visit|%s|%s", vi.fn, vi.cname)
